@@ -381,6 +381,24 @@ def _wn_entry(it, senv):
         return o
     senv['actual_removals'], senv['expected_removals'] = intset('actual_removals'), intset('expected_removals')
     senv['actual_ignored'], senv['expected_ignored'] = sink('actual_ignored'), sink('expected_ignored')
+    if getattr(it.target, 'ignored_sets_checked', False):
+        # wrong_number: a number put into an ignored set is the number of the line can_ignore has just excused
+        def checked_sink(name, lines, which):
+            o = SObj('set', {'__open__': False}, label=name)
+
+            def add(it2, self, x):
+                last = [t for t in it2.path.trace if t[0].endswith('can_ignore')]
+                xz = x.z if isinstance(x, SInt) else z3.IntVal(int(x))
+                if not last:
+                    cond = z3.BoolVal(False)
+                else:
+                    line = last[-1][1][which]
+                    cond = z3.And(xz >= 0, xz < lines.n, strz(it2, lines.get(xz)) == strz(it2, line))
+                it2.path.oblige('wrong_number.post.a-line-recorded-as-ignored-is-the-line-just-excused[%s]' % name, cond)
+            o.methods['add'] = Builtin(add, 'set.add')
+            return o
+        senv['actual_ignored'] = checked_sink('actual_ignored', senv['original_actual'], 'actual_line')
+        senv['expected_ignored'] = checked_sink('expected_ignored', senv['original_expected'], 'expected_line')
     senv['actual_map'], senv['expected_map'] = linemap('actual_map'), linemap('expected_map')
     norm = z3.Function('normalized', StrS, StrS)
     from pyvc.ops import strz
@@ -398,7 +416,7 @@ class _WrongNumber(Contract):
 
 
 _wn = _WrongNumber(
-    CF + 'FilesComparison.wrong_number', props=['C04'],
+    CF + 'FilesComparison.wrong_number', props=['C04', 'C15'],
     params=OrderedDict([('original_actual', T.list(T.str)), ('original_expected', T.list(T.str)),
                         ('actual_ignored', None), ('expected_ignored', None), ('actual_removals', None),
                         ('expected_removals', None), ('actual_map', None), ('expected_map', None),
@@ -415,6 +433,7 @@ _wn = _WrongNumber(
     ensures=[('different-line-counts-are-a-failure', 'result[1] > 0')])
 # at call sites the result is a pair (message or None, count)
 _wn.effects = lambda it, env: (it.fresh(T.opt(T.str), 'wrong_number.first_error'), it.fresh(T.int, 'wrong_number.ndiffs'))
+_wn.ignored_sets_checked = True
 REGISTRY[_wn.ident] = _wn
 
 
